@@ -41,8 +41,10 @@ CHECKS.update({
             "exhaustive path-pair enumeration through the real import_path with an independent lexical resolver (cross-checked with posixpath "
             "and the file system)",
             "Every pair of importing/imported file paths up to the depth bound over an alphabet with `.`, `..`, dotted names and names ending in "
-            "`ts`, under seven base-directory spellings and both import-esm settings, is pushed through the function generate_imports uses; an "
-            "independent resolver decides whether the specifier is relative, extension-free and denotes the dependency's file."),
+            "`ts`, under eight base-directory spellings and both import-esm settings, is pushed through the function generate_imports uses; an "
+            "independent resolver decides whether the specifier is relative, extension-free and denotes the dependency's file. End to end, "
+            "every import statement written by real exports (many roots in one process, differently named base directories) must resolve "
+            "to a written file that declares the imported names."),
     "C17": ("fault_enumeration", "3.C17",
             "fault-injection histories (obstacle before one step, removed before retry) with snapshot/registry oracle against the fault-free run",
             "Histories of real export calls with one obstacle of each kind injected before each position; the monitor checks the call returns "
@@ -66,7 +68,8 @@ CHECKS.update({
     "C12": ("exploration", "3.C12",
             "table-driven value monitor for the built-in impls (serde_json output vs declared type, witnesses vs Deserialize, dependencies)",
             "A fixed table of ~200 library types (std, arrays of every length, tuples of every arity, maps over every key type, wrappers, "
-            "feature-gated crates, compositions) with representative values: membership of serde's output in name()/inline(), "
+            "feature-gated crates, compositions) with representative values: membership of serde's output in name()/inline(), agreement of "
+            "the two spellings, exact tuple lengths, legal index key types, "
             "deserialization of the declared type's inhabitants, documented keyword per kind, and type arguments reported as dependencies."),
     "C16": ("exploration", "3.C16",
             "grammar-based derive fuzzing in-process under catch_unwind with an independent incompatibility table + rustc compile batches",
@@ -89,7 +92,8 @@ CHECKS.update({
     "C11": ("exploration", "3.C11",
             "export observation with an IR-level reachability oracle and directory snapshots",
             "The set of files an export creates is compared with the closure computed from the generator's own IR (independent of ts-rs's "
-            "dependency code) and the documented path rule; reported paths must be the written paths; unrelated files stay byte-identical."),
+            "dependency code) and the documented path rule; reported paths must be the written paths; unrelated files stay byte-identical; "
+            "no directory is created that ends up empty."),
     "C15": ("exploration", "3.C15",
             "doc-group (metamorphic) monitor: declarations parsed by swc with and without documentation, comment attachment, merge pairs",
             "The same item is generated without docs and with two different hostile doc texts at each position and in each doc form; the "
@@ -108,7 +112,9 @@ CHECKS.update({
     "C13": ("exploration", "3.C13",
             "differential monitor across independent compilations, repetitions, thread counts and export orders",
             "The same generated source is built as several packages (each expanded by a fresh macro process); every public string and every "
-            "export tree (1/4/16 threads, shuffled orders, repeated) must be byte-identical; the in-process driver reports how many items "
+            "export tree (1/4/16 threads, shuffled orders, repeated; all types through export_all, and fixed subsets through export / "
+            "export_all mixed) must be byte-identical path by path; every package asks for the strings in its own order, failing renders "
+            "included; the in-process driver reports how many items "
             "really showed different raw token orders in 20 expansions, so that silence is meaningful."),
 })
 
